@@ -89,6 +89,55 @@ fn mutants(rng: &mut Rng, e: &SemEvent, other_kp: &Keypair, thorough: bool) -> V
         m.id[b / 8] ^= 1 << (b % 8);
         v.push((format!("id-bit-{b}"), m));
     }
+    // whole-field id changes whose per-byte differences cancel under folding (exchanged, reversed, rotated bytes,
+    // the same mask in two bytes), ids right only in a prefix / suffix, unrelated ids
+    {
+        let i = rng.usize_below(32);
+        let mut j = rng.usize_below(32);
+        let mut guard = 0;
+        while (j == i || e.id[j] == e.id[i]) && guard < 64 {
+            j = (j + 1) % 32;
+            guard += 1;
+        }
+        let mut m = e.clone();
+        m.id.swap(i, j);
+        v.push(("id-two-bytes-exchanged".to_string(), m));
+        let mut m = e.clone();
+        m.id.reverse();
+        v.push(("id-reversed".into(), m));
+        let mut m = e.clone();
+        m.id.rotate_left(1 + rng.usize_below(31));
+        v.push(("id-rotated".into(), m));
+        let mask = 1u8 << rng.below(8);
+        let mut m = e.clone();
+        m.id[i] ^= mask;
+        m.id[(i + 1 + rng.usize_below(31)) % 32] ^= mask;
+        v.push(("id-same-mask-in-two-bytes".into(), m));
+        let mut m = e.clone();
+        let k = *rng.pick(&[1usize, 4, 8, 16, 24, 31]);
+        for b in m.id[k..].iter_mut() {
+            *b = !*b;
+        }
+        v.push(("id-right-only-in-a-prefix".to_string(), m));
+        let mut m = e.clone();
+        for b in m.id[..32 - k].iter_mut() {
+            *b = !*b;
+        }
+        v.push(("id-right-only-in-a-suffix".to_string(), m));
+        let mut m = e.clone();
+        m.id = rng.arr32();
+        v.push(("id-unrelated".into(), m));
+        // signature / pubkey: halves exchanged, reversed
+        let mut m = e.clone();
+        m.sig.rotate_left(32);
+        v.push(("sig-halves-exchanged".into(), m));
+        let mut m = e.clone();
+        m.sig.reverse();
+        v.push(("sig-reversed".into(), m));
+        let mut m = e.clone();
+        m.pubkey.reverse();
+        v.push(("pubkey-reversed".into(), m));
+    }
     for _ in 0..12 {
         let b = rng.usize_below(256);
         let mut m = e.clone();
